@@ -4,8 +4,12 @@ package c10
 
 import (
 	"context"
+	"encoding/json"
 	"errors"
 	"fmt"
+	"reflect"
+
+	"github.com/notaryproject/notation-core-go/signature"
 
 	"github.com/notaryproject/notation-go"
 	"github.com/notaryproject/notation-go/verifier/trustpolicy"
@@ -19,6 +23,9 @@ type Input struct {
 	Pages [][]string `json:"pages"`
 	Ref   string     `json:"ref"`
 	Skip  bool       `json:"skip"`
+	// concretisation only (ignored by the model, theorem concretisation_irrelevant):
+	RefVariant string `json:"refVariant"` // "", "sha512", "sha384", "tag@digest"
+	Flavors    []int  `json:"flavors"`    // per listed signature: error value of a failing fetch / verification
 }
 
 type Obs struct {
@@ -31,8 +38,37 @@ type Obs struct {
 	DescOk   bool  `json:"descOk"`
 }
 
-var artifact = ocispec.Descriptor{MediaType: ocispec.MediaTypeImageManifest, Digest: digest.FromString("artifact"), Size: 8}
+// the resolved descriptor carries everything a registry may put on it: Verify must return it as resolved
+var artifact = ocispec.Descriptor{MediaType: ocispec.MediaTypeImageManifest, Digest: digest.FromString("artifact"), Size: 8,
+	Annotations:  map[string]string{"org.example.resolved": "yes"},
+	ArtifactType: "application/vnd.example.thing",
+	URLs:         []string{"https://mirror.example/artifact"},
+	Platform:     &ocispec.Platform{Architecture: "amd64", OS: "linux"}}
 var other = digest.FromString("another artifact")
+
+// error values a failing fetch / verification may return; all of them are just failures
+func flavored(k int, what string) error {
+	switch k % 6 {
+	case 1:
+		return fmt.Errorf("%s: %w", what, context.DeadlineExceeded) // e.g. an OCSP/CRL http client timeout inside the verifier
+	case 2:
+		return fmt.Errorf("%s: %w", what, context.Canceled)
+	case 3:
+		return notation.ErrorVerificationInconclusive{Msg: what}
+	case 4:
+		return notation.ErrorSignatureRetrievalFailed{Msg: what}
+	case 5:
+		return notation.ErrorVerificationFailed{Msg: what}
+	}
+	return errors.New(what)
+}
+
+func (r *repo) flavor(i int) int {
+	if i >= 0 && i < len(r.flavors) {
+		return r.flavors[i]
+	}
+	return 0
+}
 
 type repo struct {
 	pages    [][]string
@@ -41,6 +77,7 @@ type repo struct {
 	fetched  []int
 	index    map[digest.Digest]int
 	kind     map[digest.Digest]string
+	flavors  []int
 }
 
 func (r *repo) Resolve(ctx context.Context, reference string) (ocispec.Descriptor, error) {
@@ -70,7 +107,7 @@ func (r *repo) ListSignatures(ctx context.Context, desc ocispec.Descriptor, fn f
 func (r *repo) FetchSignatureBlob(ctx context.Context, desc ocispec.Descriptor) ([]byte, ocispec.Descriptor, error) {
 	r.fetched = append(r.fetched, r.index[desc.Digest])
 	if r.kind[desc.Digest] == "unfetchable" {
-		return nil, ocispec.Descriptor{}, errors.New("unfetchable")
+		return nil, ocispec.Descriptor{}, flavored(r.flavor(r.index[desc.Digest]), "unfetchable")
 	}
 	return []byte(desc.Digest), ocispec.Descriptor{MediaType: "application/jose+json"}, nil
 }
@@ -86,11 +123,16 @@ type verifier struct {
 
 func (v *verifier) Verify(ctx context.Context, desc ocispec.Descriptor, sig []byte, opts notation.VerifierVerifyOptions) (*notation.VerificationOutcome, error) {
 	v.verified = append(v.verified, v.r.index[digest.Digest(sig)])
-	out := &notation.VerificationOutcome{RawSignature: sig}
+	// like the real verifier, the outcome carries the envelope content: a signed payload naming the
+	// artifact by media type, digest and size, with annotations of its own (user metadata)
+	payload, _ := json.Marshal(map[string]any{"targetArtifact": ocispec.Descriptor{MediaType: artifact.MediaType,
+		Digest: artifact.Digest, Size: artifact.Size, Annotations: map[string]string{"buildId": "101"}}})
+	out := &notation.VerificationOutcome{RawSignature: sig, EnvelopeContent: &signature.EnvelopeContent{
+		Payload: signature.Payload{ContentType: "application/vnd.cncf.notary.payload.v1+json", Content: payload}}}
 	if desc.Digest == artifact.Digest && v.r.kind[digest.Digest(sig)] == "good" {
 		return out, nil
 	}
-	out.Error = errors.New("bad signature")
+	out.Error = flavored(v.r.flavor(v.r.index[digest.Digest(sig)]), "bad signature")
 	return out, out.Error
 }
 
@@ -107,13 +149,26 @@ func (v *skipVerifier) SkipVerify(ctx context.Context, opts notation.VerifierVer
 	return false, trustpolicy.LevelStrict, nil
 }
 
-func refString(kind string) string {
+func refString(kind, variant string) string {
 	switch kind {
 	case "tag":
 		return "reg.example/repo:v1"
 	case "digestMatch":
+		if variant == "tag@digest" {
+			return "reg.example/repo:v1@" + artifact.Digest.String()
+		}
 		return "reg.example/repo@" + artifact.Digest.String()
 	case "digestMismatch":
+		// a digest the repository does not resolve to: another sha256, or the artifact's content
+		// under another algorithm (still not the digest the repository answers with)
+		switch variant {
+		case "sha512":
+			return "reg.example/repo@" + digest.SHA512.FromString("artifact").String()
+		case "sha384":
+			return "reg.example/repo@" + digest.SHA384.FromString("artifact").String()
+		case "tag@digest":
+			return "reg.example/repo:v1@" + other.String()
+		}
 		return "reg.example/repo@" + other.String()
 	default:
 		return "reg.example/repo"
@@ -121,7 +176,7 @@ func refString(kind string) string {
 }
 
 func runCase(in Input, withSkipper bool) Obs {
-	r := &repo{pages: in.Pages, index: map[digest.Digest]int{}, kind: map[digest.Digest]string{}}
+	r := &repo{pages: in.Pages, index: map[digest.Digest]int{}, kind: map[digest.Digest]string{}, flavors: in.Flavors}
 	var v notation.Verifier
 	var base *verifier
 	if withSkipper {
@@ -132,7 +187,7 @@ func runCase(in Input, withSkipper bool) Obs {
 		v = base
 	}
 	desc, outcomes, err := notation.Verify(context.Background(), v, r, notation.VerifyOptions{
-		ArtifactReference: refString(in.Ref), MaxSignatureAttempts: in.Max})
+		ArtifactReference: refString(in.Ref, in.RefVariant), MaxSignatureAttempts: in.Max})
 	o := Obs{Resolved: r.resolved, Listed: r.listed, Fetched: r.fetched, Verified: base.verified}
 	if o.Fetched == nil {
 		o.Fetched = []int{}
@@ -150,8 +205,8 @@ func runCase(in Input, withSkipper bool) Obs {
 				idx = -1
 			}
 			o.Success = &idx
-			o.DescOk = len(outcomes) == 1 && desc.Digest == artifact.Digest && desc.Size == artifact.Size &&
-				desc.MediaType == artifact.MediaType && outcomes[0].Error == nil
+			// the RESOLVED descriptor, field for field (annotations, platform, artifact type, URLs included)
+			o.DescOk = len(outcomes) == 1 && reflect.DeepEqual(desc, artifact) && outcomes[0].Error == nil
 		} else {
 			// no error and nothing recognisable: report as a success of an impossible index
 			idx := 1 << 30
@@ -196,6 +251,9 @@ func Run(c *common.Ctx) error {
 		maxLen = 6
 	}
 	refs := []string{"tag", "digestMatch", "digestMismatch", "noRef"}
+	variantsOf := map[string][]string{"tag": {""}, "noRef": {""}, "digestMatch": {"", "tag@digest"},
+		"digestMismatch": {"", "sha512", "sha384", "tag@digest"}}
+	counter := 0
 	for n := 0; n <= maxLen; n++ {
 		for _, l := range listings(n) {
 			for _, pg := range pagings(l) {
@@ -216,26 +274,38 @@ func Run(c *common.Ctx) error {
 								if skip && n > 2 {
 									continue
 								}
-								in := Input{Max: max, Pages: pages, Ref: ref, Skip: skip}
-								if in.Pages == nil {
-									in.Pages = [][]string{}
-								}
-								o := runCase(in, true)
-								c.Emit(in, o)
-								c.Count("ref=" + ref)
-								c.Count(fmt.Sprintf("len=%d", n))
-								if o.Success != nil {
-									c.Count("outcome=success")
-								} else if o.Skipped {
-									c.Count("outcome=skipped")
-								} else {
-									c.Count("outcome=error")
-								}
-								if !skip && n <= 3 {
-									// the same case through a verifier without SkipVerify
-									o2 := runCase(in, false)
-									c.Emit(in, o2)
-									c.Count("verifier=no-skipper")
+								for _, variant := range variantsOf[ref] {
+									counter++
+									// error flavours: all plain on even cases; on odd ones a rotation that puts every
+									// flavour at every listing position over the run
+									flavors := make([]int, n)
+									if counter%2 == 1 {
+										for k := range flavors {
+											flavors[k] = (counter/2 + k) % 6
+										}
+									}
+									in := Input{Max: max, Pages: pages, Ref: ref, Skip: skip, RefVariant: variant, Flavors: flavors}
+									if in.Pages == nil {
+										in.Pages = [][]string{}
+									}
+									o := runCase(in, true)
+									c.Count("refVariant=" + ref + "/" + variant)
+									c.Emit(in, o)
+									c.Count("ref=" + ref)
+									c.Count(fmt.Sprintf("len=%d", n))
+									if o.Success != nil {
+										c.Count("outcome=success")
+									} else if o.Skipped {
+										c.Count("outcome=skipped")
+									} else {
+										c.Count("outcome=error")
+									}
+									if !skip && n <= 3 {
+										// the same case through a verifier without SkipVerify
+										o2 := runCase(in, false)
+										c.Emit(in, o2)
+										c.Count("verifier=no-skipper")
+									}
 								}
 							}
 						}
